@@ -26,8 +26,8 @@ REGISTRY = {
             'against an independent Python reference (substring scan, per-residue modification multisets)',
     'note': 'trusted: Lean kernel, axioms propext/Classical.choice/Quot.sound, the correspondence harness; regex.finditer with a '
             'literal pattern is modelled as a naive scan (compared directly with regex on every enumerated pair); slice and == are '
-            'the shared models of C11/C20; count_residues (static-mod condensing, serialisation) is outside the model: its keys '
-            'are taken from the implementation for the unordered test',
+            'the shared models of C11/C20; the unordered test is modelled end to end (condense_static_mods of C12, split of C11, '
+            'residues counted modulo ==) and proved equal to multiset inclusion of modified residues',
     'technique': 'Lean 4 proof about executable model + differential correspondence',
 }
 
@@ -255,10 +255,11 @@ def run(chk):
     chk.lean_build(['PeptVerif.Props.C16'], DRV)
     chk.trusted += [
         'modelled (Model/Search.lean): ProFormaAnnotation.is_subsequence / find_indices, find_subsequence_indices, '
-        'is_subsequence (ordered; unordered on the keys of count_residues), coverage, percent_coverage; slice and __eq__ are '
-        'Model/Reorder.lean and Model/AnnotEq.lean',
-        'not modelled: sequence_to_annotation (parsing, C01/C09), count_residues (condense_static_mods, split, serialize), '
-        'the regex engine (literal patterns only: compared with the scan model on every enumerated pair)',
+        'is_subsequence (ordered; unordered = _count_residue_keys on the pieces of condense_static_mods().split(), keys compared '
+        'as == does), coverage, percent_coverage; slice, split and __eq__ are Model/Reorder.lean and Model/AnnotEq.lean, '
+        'condense_static_mods / count_residues Model/StaticMods.lean (C12)',
+        'not modelled: sequence_to_annotation (parsing, C01/C09), the hashing of the residue keys (Counter lookup is modelled as '
+        'counting modulo ==), the regex engine (literal patterns only: compared with the scan model on every enumerated pair)',
         'reading: a partly covered interval has no agreed meaning for "the modifications on that stretch"; such offsets are '
         'compared model-vs-implementation only, not against the independent reference',
     ]
